@@ -218,6 +218,16 @@ func (w *Writer) Write(fr Frame) error {
 		}
 
 		encodeMessageInFrame(fr, mp)
+
+		// the re-encoded payload can differ from the one the frame was received with
+		// (bytes after a string terminator, unknown extension bytes):
+		// the checksum must correspond to the payload that is actually sent
+		switch ff := fr.(type) {
+		case *V1Frame:
+			ff.Checksum = ff.GenerateChecksum(mp.CRCExtra())
+		case *V2Frame:
+			ff.Checksum = ff.GenerateChecksum(mp.CRCExtra())
+		}
 	}
 
 	return w.writeFrameInner(fr)
